@@ -115,12 +115,17 @@ class C06(Property):
     def coeff(allow_zero_const=False, p_stream=(1, 3)):
       if W.chance("is-stream", *p_stream):
         ctr[0] += 1
-        return ["s", ctr[0]]
+        how = W.weighted("how", [(6, None), (1, "hub1"), (1, "raw")])
+        if how == "raw" and shape != "single":
+          how = None    # a bare iterator cannot be copied: no algebra on it
+        return ["s", ctr[0]] if how is None else ["s", ctr[0], how]
       c = W.pick("const", [1, -1, 2, 3, -2, 5])
       if W.chance("finite-constant-stream", 1, 12):
         # a constant given as a FINITE constant stream, itertools.repeat
         return ["r", c, W.choose("times", 11)]
       return ["c", c]
+
+    shape = None
 
     def single():
       route = W.weighted("route", [(6, "expr"), (4, "lists"), (4, "quot"),
@@ -417,7 +422,13 @@ class C06(Property):
             count_uses(v)
     count_uses(tree)
 
-    def cval(c):
+    def cval(c, raw_ok=False):
+      if c[0] == "s" and len(c) > 2:
+        # how the coefficient stream is handed over (lists / dicts routes)
+        if c[2] == "hub1":
+          return self.ls.thub(Stream(sources[c[1]]), 1)
+        if c[2] == "raw" and raw_ok:
+          return sources[c[1]]           # a bare iterator, not a Stream
       if c[0] == "h":
         if c[1] not in hubs:
           hubs[c[1]] = self.ls.thub(Stream(sources[c[1]]), uses[c[1]])
@@ -450,16 +461,16 @@ class C06(Property):
                               sorted(k for k, _ in t["den"])))
           return f
         if t["route"] == "dicts":
-          return ZFilter(dict((k, cval(c)) for k, c in t["num"]),
-                         dict((k, cval(c)) for k, c in t["den"]))
+          return ZFilter(dict((k, cval(c, True)) for k, c in t["num"]),
+                         dict((k, cval(c, k != 0)) for k, c in t["den"]))
         if t["route"] == "lists":
           size = lambda lst: max([k for k, _ in lst] + [0]) + 1
           num = [0] * size(t["num"])
           for k, c in t["num"]:
-            num[k] = cval(c)
+            num[k] = cval(c, True)
           den = [0] * size(t["den"])
           for k, c in t["den"]:
-            den[k] = cval(c)
+            den[k] = cval(c, k != 0)
           return ZFilter(num, den)
         num = None
         for k, c in t["num"]:
@@ -698,6 +709,9 @@ class C06(Property):
           coeff = Stream(coeff)          # one use of the hub, as the call
         if isinstance(coeff, Stream):
           return list(coeff.take(horizon + 2)), True
+        if hasattr(coeff, "__next__"):       # a bare iterator coefficient
+          import itertools
+          return list(itertools.islice(coeff, horizon + 2)), True
         return coeff, False
 
       numA, denA = {}, {}
